@@ -248,6 +248,9 @@ def sensitivity(only=None, runs=None):
             results.append((mut["id"], mut["property"], status, round(dt), clauses[:2]))
             print(f"sensitivity {mut['id']:28s} {mut['property']} expect {mut['expect']}: {status} "
                   f"({dt:.0f}s) {clauses[:2]}")
+            if status in ("HARNESS", "MISSED"):
+                for ln in [x for x in lines if "HARNESS" in x or "Traceback" in x or "Error" in x][:6]:
+                    print("    " + ln[:300])
             sys.stdout.flush()
             shutil.rmtree(tree, ignore_errors=True)
     finally:
